@@ -305,6 +305,7 @@ class Emitter:
         for b in rec.get('bases', []):
             bt = self.canon(parse_type(b['type'].get('desugaredQualType') or b['type']['qualType']))
             bk = bt.key()
+            if any(bk.startswith(x) for x in self.cfg.get('drop_bases', [])): continue      # base class state outside the model (listed in the evidence)
             if bk in self.record_overrides:
                 out.append(('__base_' + sanitize(bk), bt, None)); nb += 1; continue
             if bt.name.startswith('std::') and stdmap.ctype_std(self, bt) is not None:
